@@ -46,6 +46,9 @@ def c27(tier):
     if r.violated:
       raise common.MachineryError("TSA.tla (per-thread marker) violates %s" % r.violated)
     run.add(states=r.distinct, transitions=r.generated, tlc_runs=["TSA %s, per-thread marker: %d distinct states; NoErr, serial final value, LockFree, NoDeadlock hold" % (prog, r.distinct)])
+  from checks.util import _tlaps_proof
+  _tlaps_proof(run, "TSA", "TSA", ["SPECIFICATION Spec\nCONSTANTS Threads = {\"t1\", \"t2\"}\nProg <- %s\nFixed = TRUE\n" % pr for pr in ("ProgDef", "Prog2")],
+               "Spec => [](NoErr /\\ LockFree) for any set of threads and any programs of reads, assignments and augmented assignments")
   n = 1500 if tier == "quick" else 30000
   chunk = max(1, (n + 63) // 64)
   nf = len(tsadrive.C27_FORMS)
